@@ -246,16 +246,16 @@ fn shape_tags(s: &MSpec, skip: &[u32], tags: &mut Vec<String>) {
 const WITNESS_BASE: u64 = 1 << 40;
 
 struct In25 { s: MSpec, skip: Vec<u32>, style: &'static str, k: Option<u64>, probe: bool }
-// hand-written minimal witnesses of the shapes of D12 (case index WITNESS_BASE + w)
+// hand-written regression inputs: the minimal witnesses of the shapes of D12, repaired since (case index WITNESS_BASE + w)
 fn witness25(w: u64) -> In25 {
     let m = |nimp: u32, lens: &[usize]| mspec_of(0, nimp, false, lens);
     match w {
-        0 => In25 { s: m(0, &[1, 5]), skip: vec![0], style: "witness", k: None, probe: false },       // function 0 skipped: f1 walked with f0's length
-        1 => In25 { s: m(1, &[3, 2]), skip: vec![1], style: "witness", k: None, probe: false },       // same, longer f0: curr_op indexes out of bounds
+        0 => In25 { s: m(0, &[1, 5]), skip: vec![0], style: "witness", k: None, probe: false },       // function 0 skipped (f1 used to be walked with f0's length)
+        1 => In25 { s: m(1, &[3, 2]), skip: vec![1], style: "witness", k: None, probe: false },       // same, longer f0 (curr_op used to index out of bounds)
         2 => In25 { s: m(1, &[]), skip: vec![], style: "witness", k: None, probe: false },            // no local function
         3 => In25 { s: m(0, &[2]), skip: vec![0], style: "witness", k: None, probe: false },          // every function skipped
         4 => In25 { s: m(0, &[2, 1]), skip: vec![1], style: "witness", k: None, probe: true },        // trailing skipped: curr_loc after the end
-        5 => In25 { s: m(0, &[1, 1]), skip: vec![0, 1], style: "witness", k: Some(0), probe: false }, // all skipped: reset panics too
+        5 => In25 { s: m(0, &[1, 1]), skip: vec![0, 1], style: "witness", k: Some(0), probe: false }, // all skipped, with a reset
         _ => In25 { s: m(2, &[2, 3, 1]), skip: vec![3], style: "witness", k: Some(2), probe: true },  // a holding case
     }
 }
@@ -321,7 +321,7 @@ fn inject_walk<'a, T: WIter + IteratingInstrumenter<'a> + Inject<'a>>(it: &mut T
 }
 
 struct In26 { ms: Vec<MSpec>, skips: Vec<Vec<u32>>, present: Vec<bool>, styles: Vec<&'static str>, k: Option<u64>, probe: bool, decorate: bool, targets: Vec<(u32, u32, usize)> }
-// hand-written minimal witnesses of the shapes of D13 (and of D12 seen through the component iterator)
+// hand-written regression inputs: the minimal witnesses of the shapes of D13 (and of D12 seen through the component iterator), repaired since
 fn witness26(w: u64) -> In26 {
     let m = |midx: u32, nimp: u32, lens: &[usize]| mspec_of(midx, nimp, false, lens);
     let mk = |ms: Vec<MSpec>, skips: Vec<Vec<u32>>, k: Option<u64>, probe: bool, targets: Vec<(u32, u32, usize)>| {
@@ -329,11 +329,11 @@ fn witness26(w: u64) -> In26 {
         In26 { ms, skips, present: vec![true; n], styles: vec!["witness"; n], k, probe, decorate: false, targets }
     };
     match w {
-        0 => mk(vec![m(0, 0, &[1, 1]), m(1, 0, &[1])], vec![vec![1], vec![]], None, false, vec![(1, 0, 0)]),       // last function of module 0 skipped: module 1 never visited
-        1 => mk(vec![m(0, 0, &[1]), m(1, 0, &[])], vec![vec![], vec![]], None, false, vec![]),                    // module without local functions: next() panics
-        2 => mk(vec![m(0, 0, &[1, 1]), m(1, 0, &[1, 1])], vec![vec![], vec![0]], Some(9), false, vec![]),         // reset keeps module 1's skip list
+        0 => mk(vec![m(0, 0, &[1, 1]), m(1, 0, &[1])], vec![vec![1], vec![]], None, false, vec![(1, 0, 0)]),       // last function of module 0 skipped (module 1 used to be never visited)
+        1 => mk(vec![m(0, 0, &[1]), m(1, 0, &[])], vec![vec![], vec![]], None, false, vec![]),                    // module without local functions (next() used to panic)
+        2 => mk(vec![m(0, 0, &[1, 1]), m(1, 0, &[1, 1])], vec![vec![], vec![0]], Some(9), false, vec![]),         // reset (used to keep module 1's skip list)
         3 => mk(vec![m(0, 0, &[1]), m(1, 0, &[1, 2])], vec![vec![], vec![0]], None, false, vec![]),               // D12 inside module 1
-        4 => mk(vec![m(0, 0, &[])], vec![vec![]], None, false, vec![]),                                           // construction panics
+        4 => mk(vec![m(0, 0, &[])], vec![vec![]], None, false, vec![]),                                           // only module has no local function (construction used to panic)
         _ => mk(vec![m(0, 1, &[2, 1]), m(1, 0, &[3])], vec![vec![0], vec![]], Some(1), true, vec![(0, 1, 1), (1, 0, 0)]), // a holding case
     }
 }
